@@ -84,6 +84,6 @@ structure WFTopo (lim : Nat) (F : AFile) : Prop where
     polyhedral mesh without topology check) -/
 structure Accepts (cfg : Cfg) (F : AFile) : Prop where
   faces : ∀ f ∈ F.faces, faceDec cfg F.edges f = .accept f
-  cells : ∀ c ∈ F.cells, cellDec cfg F.faces c = .accept c
+  cells : ∀ c ∈ F.cells, cellDec cfg F.edges F.faces c = .accept c
 
 end OVM.Ascii
